@@ -642,7 +642,7 @@ def _eval_tree(ctx: Ctx, env: Env, rng, shape: str, tnode, key: RefKey | None, p
             ctx.classes["script:>=253"] += 1
         if len(s) >= 65536:
             ctx.classes["script:>=65536"] += 1
-    _count_leaf_classes(ctx, tnode)
+    has_odd = _count_leaf_classes(ctx, tnode) > 0
     md = max(depths)
     if md >= 8:
         ctx.classes["depth:8"] += 1
@@ -669,6 +669,9 @@ def _eval_tree(ctx: Ctx, env: Env, rng, shape: str, tnode, key: RefKey | None, p
         at = env.armtag(arm)
         lib_key = _spell(env, rng, pub_kind, key) if key is not None else None
         o = outcome(T.output_pubkey, lib_key, libtree)
+        if has_odd and o[0] == "raise" and is_lib_exc(o[1]):
+            ctx.stat("odd-leaf-version:refused")  # not a leaf version at all: refusing it is as good as masking it
+            continue
         if not _judge_output_key(ctx, "output_pubkey", at, o, q, parity, case):
             continue  # everything below is judged against q: one defect, one report
         o = outcome(lambda: env.ScriptPubKey.p2tr(lib_key, libtree).script)
@@ -724,15 +727,15 @@ def _eval_tree(ctx: Ctx, env: Env, rng, shape: str, tnode, key: RefKey | None, p
     env.use(True if backend_available() else None)
 
 
-def _count_leaf_classes(ctx: Ctx, t) -> None:
+def _count_leaf_classes(ctx: Ctx, t) -> int:
+    """Counts the leaf classes only the neutral tree shows; returns the number of odd leaf versions."""
     if t[0] == "L":
         if t[1] & 1:
             ctx.classes["version:odd"] += 1
         if t[2] and t[2][-1][0] == "success":
             ctx.classes["script:op-success"] += 1
-    else:
-        _count_leaf_classes(ctx, t[1])
-        _count_leaf_classes(ctx, t[2])
+        return t[1] & 1
+    return _count_leaf_classes(ctx, t[1]) + _count_leaf_classes(ctx, t[2])
 
 
 def _control_diff(got: bytes, want: bytes) -> str:
@@ -821,6 +824,10 @@ def shard_trees(ctx: Ctx) -> None:
     finally:
         env.close()
     ctx.stat("trees:evaluated", done)
+    if done:
+        ctx.exhaustive.append("per chosen leaf (deepest, first, last, random) on the bindings arm: every single bit of the control "
+                              "block and of the leaf script (each up to 2 KiB), every bit of the output key, every control-block "
+                              "length from -33 to +33 bytes")
 
 
 def _bad_xs(rng, count: int) -> list[tuple[str, int]]:
